@@ -160,9 +160,11 @@ class TGen:
                 p += ">>%d" % rng.choice([0, 1])
             return p
         if k < 0.38 and n:
-            return rng.randrange(n)
+            p = rng.randrange(n)
+            return p - n if rng.random() < 0.3 else p           # the same row counted from the end
         if k < 0.48:
-            return ("list", tuple(rng.randrange(n) for _ in range(rng.randint(0, 4))) if n else ())
+            neg = rng.random() < 0.4
+            return ("list", tuple((lambda p: p - n if neg and rng.random() < 0.5 else p)(rng.randrange(n)) for _ in range(rng.randint(0, 4))) if n else ())
         if k < 0.56:
             return ("list" if rng.random() < 0.5 else "array", tuple(rng.random() < 0.5 for _ in range(n)))
         if k < 0.62:
